@@ -16,27 +16,114 @@ import (
 
 type replPair struct{ old, new string }
 
-// escapePairs recognises the three usual shapes of a replacement routine and returns the (old,new) pairs in application order:
-// (A) parallel []string tables walked by one range loop calling strings.Replace(x, v, repl[i], -1) / ReplaceAll;
-// (B) a sequence / nesting of strings.Replace(All) calls with constant arguments; (C) strings.NewReplacer(const pairs…).
-func (c *Ctx) escapePairs(p *packagesPackage, fd *ast.FuncDecl) (pairs []replPair, simultaneous bool, why string) {
-	info := p.TypesInfo
-	tables := map[types.Object][]string{}
-	constStrs := func(e ast.Expr) ([]string, bool) {
-		cl, ok := ast.Unparen(e).(*ast.CompositeLit)
+// constTable evaluates a composite literal of strings / arrays of strings / structs of strings into rows of constant strings
+// (row i = the flattened constant strings of element i, with field names for struct elements).
+type constRow struct {
+	byIndex []string
+	byName  map[string]string
+}
+
+func (c *Ctx) constTable(info *types.Info, lit *ast.CompositeLit) ([]constRow, bool) {
+	var rows []constRow
+	for _, el := range lit.Elts {
+		if kv, ok := el.(*ast.KeyValueExpr); ok {
+			el = kv.Value
+		}
+		row := constRow{byName: map[string]string{}}
+		if s, ok := constString(info, el); ok {
+			row.byIndex = []string{s}
+			rows = append(rows, row)
+			continue
+		}
+		cl, ok := ast.Unparen(el).(*ast.CompositeLit)
 		if !ok {
 			return nil, false
 		}
-		var out []string
-		for _, el := range cl.Elts {
-			s, ok := constString(info, el)
+		var st *types.Struct
+		if tv, ok := info.Types[cl]; ok {
+			st, _ = tv.Type.Underlying().(*types.Struct)
+		}
+		for i, sub := range cl.Elts {
+			name := ""
+			if kv, ok := sub.(*ast.KeyValueExpr); ok {
+				if id, ok := kv.Key.(*ast.Ident); ok {
+					name = id.Name
+				}
+				sub = kv.Value
+			} else if st != nil && i < st.NumFields() {
+				name = st.Field(i).Name()
+			}
+			v, ok := constString(info, sub)
 			if !ok {
 				return nil, false
 			}
-			out = append(out, s)
+			row.byIndex = append(row.byIndex, v)
+			if name != "" {
+				row.byName[name] = v
+			}
 		}
-		return out, true
+		rows = append(rows, row)
 	}
+	return rows, true
+}
+
+// tableOf resolves an identifier to the constant table it is bound to: a local `x := []T{…}` / `var x = …` or a package-level variable.
+func (c *Ctx) tableOf(p *packagesPackage, fd *ast.FuncDecl, id *ast.Ident) ([]constRow, bool) {
+	info := p.TypesInfo
+	obj := info.ObjectOf(id)
+	if obj == nil {
+		return nil, false
+	}
+	var lit *ast.CompositeLit
+	find := func(root ast.Node) {
+		ast.Inspect(root, func(n ast.Node) bool {
+			switch x := n.(type) {
+			case *ast.AssignStmt:
+				for i, lh := range x.Lhs {
+					if l, ok := lh.(*ast.Ident); ok && info.ObjectOf(l) == obj && i < len(x.Rhs) {
+						if cl, ok := ast.Unparen(x.Rhs[i]).(*ast.CompositeLit); ok {
+							lit = cl
+						}
+					}
+				}
+			case *ast.ValueSpec:
+				for i, n2 := range x.Names {
+					if info.ObjectOf(n2) == obj && i < len(x.Values) {
+						if cl, ok := ast.Unparen(x.Values[i]).(*ast.CompositeLit); ok {
+							lit = cl
+						}
+					}
+				}
+			}
+			return true
+		})
+	}
+	find(fd)
+	if lit == nil {
+		for _, f := range p.Syntax {
+			for _, d := range f.Decls {
+				if gd, ok := d.(*ast.GenDecl); ok {
+					find(gd)
+				}
+			}
+		}
+	}
+	if lit == nil {
+		return nil, false
+	}
+	return c.constTable(info, lit)
+}
+
+// escapePairs recognises the replacement pairs of an escaping routine in application order: constant Replace/ReplaceAll calls
+// (sequence or nesting), strings.NewReplacer, and Replace calls inside one loop whose pattern / replacement index constant tables
+// (parallel slices, a slice of pairs, a slice of structs; range or index loop; local or package-level). Module functions of the
+// same package called by the routine are searched too.
+func (c *Ctx) escapePairs(p *packagesPackage, fd *ast.FuncDecl) (pairs []replPair, simultaneous bool, why string) {
+	return c.escapePairsIn(p, fd, 0)
+}
+
+func (c *Ctx) escapePairsIn(p *packagesPackage, fd *ast.FuncDecl, depth int) (pairs []replPair, simultaneous bool, why string) {
+	info := p.TypesInfo
 	isStrings := func(call *ast.CallExpr, names ...string) bool {
 		obj := calleeObj(info, call)
 		if obj == nil || objPkgPath(obj) != "strings" {
@@ -60,86 +147,129 @@ func (c *Ctx) escapePairs(p *packagesPackage, fd *ast.FuncDecl) (pairs []replPai
 		}
 		return false
 	}
-	var visit func(n ast.Node)
-	visit = func(n ast.Node) {
+	// loop environment: index variable → table it indexes (if known), value variable → table it ranges over
+	type loopEnv struct {
+		idx    types.Object
+		val    types.Object
+		valTbl []constRow
+		n      int
+	}
+	// element evaluates an expression like T[i], T[i][0], T[i].raw, e[1], e.escaped, v to its constant rows (one string per iteration)
+	var element func(e ast.Expr, env *loopEnv) ([]string, bool)
+	element = func(e ast.Expr, env *loopEnv) ([]string, bool) {
+		e = ast.Unparen(e)
+		var path []pathStep
+		cur := e
+		for {
+			switch x := cur.(type) {
+			case *ast.SelectorExpr:
+				if _, isPkg := info.Uses[x.Sel].(*types.Var); isPkg {
+					if id, ok := x.X.(*ast.Ident); ok {
+						if _, isPkgName := info.Uses[id].(*types.PkgName); isPkgName {
+							goto done
+						}
+					}
+				}
+				path = append([]pathStep{{-1, x.Sel.Name}}, path...)
+				cur = ast.Unparen(x.X)
+				continue
+			case *ast.IndexExpr:
+				if tv, ok := info.Types[x.Index]; ok && tv.Value != nil {
+					if k, ok := constantInt64(tv); ok {
+						path = append([]pathStep{{int(k), ""}}, path...)
+						cur = ast.Unparen(x.X)
+						continue
+					}
+				}
+				// indexed by the loop variable
+				if id, ok := ast.Unparen(x.Index).(*ast.Ident); ok && env != nil && env.idx != nil && info.ObjectOf(id) == env.idx {
+					base, ok := ast.Unparen(x.X).(*ast.Ident)
+					if !ok {
+						return nil, false
+					}
+					tbl, ok := c.tableOf(p, fd, base)
+					if !ok {
+						return nil, false
+					}
+					return applyPath(tbl, path)
+				}
+				return nil, false
+			}
+			break
+		}
+	done:
+		if id, ok := cur.(*ast.Ident); ok && env != nil && env.val != nil && info.ObjectOf(id) == env.val {
+			return applyPath(env.valTbl, path)
+		}
+		return nil, false
+	}
+	_ = element
+	var visit func(n ast.Node, env *loopEnv)
+	handleReplace := func(x *ast.CallExpr, env *loopEnv) {
+		if len(x.Args) < 3 {
+			return
+		}
+		o, ok1 := constString(info, x.Args[1])
+		nw, ok2 := constString(info, x.Args[2])
+		if ok1 && ok2 {
+			if !allN(x) {
+				why = "strings.Replace does not replace every occurrence"
+			}
+			pairs = append(pairs, replPair{o, nw})
+			return
+		}
+		olds, okA := element(x.Args[1], env)
+		news, okB := element(x.Args[2], env)
+		if okA && okB && len(olds) == len(news) {
+			if !allN(x) {
+				why = "strings.Replace does not replace every occurrence"
+			}
+			for i := range olds {
+				pairs = append(pairs, replPair{olds[i], news[i]})
+			}
+			return
+		}
+		if okA != okB || (okA && len(olds) != len(news)) {
+			why = "pattern and replacement tables do not correspond"
+		}
+	}
+	visit = func(n ast.Node, env *loopEnv) {
 		switch x := n.(type) {
 		case nil:
 			return
-		case *ast.AssignStmt:
-			for i, r := range x.Rhs {
-				if i < len(x.Lhs) {
-					if id, ok := x.Lhs[i].(*ast.Ident); ok {
-						if l, ok := constStrs(r); ok {
-							if o := info.ObjectOf(id); o != nil {
-								tables[o] = l
-							}
-							continue
-						}
-					}
-				}
-				visit(r)
-			}
-			return
 		case *ast.RangeStmt:
-			id, ok := ast.Unparen(x.X).(*ast.Ident)
-			if ok {
-				if find, ok := tables[info.ObjectOf(id)]; ok {
-					// body: … strings.Replace(_, v, repl[i], -1)
-					matched := false
-					ast.Inspect(x.Body, func(m ast.Node) bool {
-						call, ok := m.(*ast.CallExpr)
-						if !ok || !isStrings(call, "Replace", "ReplaceAll") || len(call.Args) < 3 {
-							return true
-						}
-						v, ok1 := ast.Unparen(call.Args[1]).(*ast.Ident)
-						ix, ok2 := ast.Unparen(call.Args[2]).(*ast.IndexExpr)
-						if !ok1 || !ok2 || x.Value == nil || x.Key == nil {
-							return true
-						}
-						vv, _ := x.Value.(*ast.Ident)
-						kk, _ := x.Key.(*ast.Ident)
-						ri, _ := ast.Unparen(ix.X).(*ast.Ident)
-						ii, _ := ast.Unparen(ix.Index).(*ast.Ident)
-						if vv == nil || kk == nil || ri == nil || ii == nil || info.ObjectOf(v) != info.ObjectOf(vv) || info.ObjectOf(ii) != info.ObjectOf(kk) {
-							return true
-						}
-						repl, ok := tables[info.ObjectOf(ri)]
-						if !ok || len(repl) != len(find) {
-							why = "replacement tables of different length"
-							return true
-						}
-						if !allN(call) {
-							why = "strings.Replace does not replace every occurrence"
-							return true
-						}
-						for i := range find {
-							pairs = append(pairs, replPair{find[i], repl[i]})
-						}
-						matched = true
-						return true
-					})
-					if matched {
-						return
+			ne := &loopEnv{}
+			if k, ok := x.Key.(*ast.Ident); ok {
+				ne.idx = info.ObjectOf(k)
+			}
+			if v, ok := x.Value.(*ast.Ident); ok {
+				ne.val = info.ObjectOf(v)
+				if id, ok := ast.Unparen(x.X).(*ast.Ident); ok {
+					if tbl, ok := c.tableOf(p, fd, id); ok {
+						ne.valTbl = tbl
 					}
 				}
 			}
+			visit(x.Body, ne)
+			return
+		case *ast.ForStmt:
+			ne := &loopEnv{}
+			if as, ok := x.Init.(*ast.AssignStmt); ok && len(as.Lhs) == 1 {
+				if id, ok := as.Lhs[0].(*ast.Ident); ok {
+					ne.idx = info.ObjectOf(id)
+				}
+			}
+			visit(x.Body, ne)
+			return
 		case *ast.CallExpr:
-			// arguments first: nested calls apply inside-out
 			for _, a := range x.Args {
-				visit(a)
+				visit(a, env)
 			}
 			if sel, ok := x.Fun.(*ast.SelectorExpr); ok {
-				visit(sel.X)
+				visit(sel.X, env)
 			}
-			if isStrings(x, "Replace", "ReplaceAll") && len(x.Args) >= 3 {
-				o, ok1 := constString(info, x.Args[1])
-				nw, ok2 := constString(info, x.Args[2])
-				if ok1 && ok2 {
-					if !allN(x) {
-						why = "strings.Replace does not replace every occurrence"
-					}
-					pairs = append(pairs, replPair{o, nw})
-				}
+			if isStrings(x, "Replace", "ReplaceAll") {
+				handleReplace(x, env)
 			}
 			if isStrings(x, "NewReplacer") {
 				simultaneous = true
@@ -151,23 +281,67 @@ func (c *Ctx) escapePairs(p *packagesPackage, fd *ast.FuncDecl) (pairs []replPai
 					}
 				}
 			}
+			// a helper of the same package
+			if depth < 2 {
+				if fn, ok := calleeObj(info, x).(*types.Func); ok && fn.Pkg() == p.Types {
+					if hd := c.declOf(p, fn); hd != nil && hd != fd && hd.Body != nil {
+						hp, hs, hw := c.escapePairsIn(p, hd, depth+1)
+						pairs = append(pairs, hp...)
+						simultaneous = simultaneous || hs
+						if hw != "" {
+							why = hw
+						}
+					}
+				}
+			}
 			return
 		}
-		// generic descent in source order
 		ast.Inspect(n, func(m ast.Node) bool {
 			if m == n || m == nil {
 				return true
 			}
 			switch m.(type) {
-			case *ast.AssignStmt, *ast.RangeStmt, *ast.CallExpr:
-				visit(m)
+			case *ast.RangeStmt, *ast.ForStmt, *ast.CallExpr:
+				visit(m, env)
 				return false
 			}
 			return true
 		})
 	}
-	visit(fd.Body)
+	visit(fd.Body, nil)
 	return
+}
+
+type pathStep struct {
+	idx  int
+	name string
+}
+
+func applyPath(tbl []constRow, path []pathStep) ([]string, bool) {
+	var out []string
+	for _, row := range tbl {
+		switch {
+		case len(path) == 0:
+			if len(row.byIndex) != 1 {
+				return nil, false
+			}
+			out = append(out, row.byIndex[0])
+		case len(path) == 1 && path[0].name != "":
+			v, ok := row.byName[path[0].name]
+			if !ok {
+				return nil, false
+			}
+			out = append(out, v)
+		case len(path) == 1 && path[0].idx >= 0:
+			if path[0].idx >= len(row.byIndex) {
+				return nil, false
+			}
+			out = append(out, row.byIndex[path[0].idx])
+		default:
+			return nil, false
+		}
+	}
+	return out, len(out) > 0
 }
 
 // oddTrailingBackslash: does s end in an odd number of backslashes (an escape left open)?
